@@ -375,6 +375,13 @@ func checkSufficient(text string, ast *ref.Node) (msg string, applicable bool) {
 	if (full.Err != nil) != (restricted.Err != nil) {
 		return fmt.Sprintf("%q: with the full data map -> %s, with the map restricted to %v -> %s", text, full, sortedKeys(keep), restricted), true
 	}
+	// the analysis reads the tree and the evaluations above read it too: analysed once more, it reports the same
+	if again, err2 := formula.ResolveReferenceFields(p.Src); err2 == nil {
+		a, b := sortedCopy(fields), sortedCopy(again)
+		if !reflect.DeepEqual(a, b) {
+			return fmt.Sprintf("%q: analysed before it was evaluated the tree reports %v, analysed again afterwards %v", text, a, b), true
+		}
+	}
 	if full.Err == nil && !reflect.DeepEqual(normResult(full.Val), normResult(restricted.Val)) {
 		return fmt.Sprintf("%q: with the full data map = %s, with the map restricted to the reported fields %v (+callees) = %s", text, obs.Show(full.Val), fields, obs.Show(restricted.Val)), true
 	}
@@ -489,6 +496,7 @@ func TestC10Templates(t *testing.T) {
 	shapes = append(shapes, "_ ? o1 : o2", "o1 ? _ : o2", "o1 ? o2 : _", "[_]", "[_, o1, o2]", "[o1, _, o2]", "[o1, o2, _]", "f(_)", "f(_, o1, o2)", "f(o1, _, o2)", "f(o1, o2, _)", "f(o1, _...)", "g.h(_)", "g.h.i(o1, _)",
 		"(_)", "$t = _", "$t = $u = _", "o1, _", "_(o1)", "_(_)", "f(g(_))", "[[_]]", "f([_], g(o1, _))", "(o1 ? [_] : f(_)) + o2", "$t = _, $t + _",
 		// a local that the formula itself binds, read as a path before and after the binding: a path is a path
+		"fnV(o1, o2, [_, o3]...)", "fnV(o1, o2, [o3, _]...)", "f(o1, [_]...)", "fnSV(o1, _, [o2, o3]...)", "fnSV(o1, o2, [o3, o4, _]...)", "max([_, o1]...)",
 		"$x = o1, _", "_, $x = o1", "$p = o1, [_, $p.q, $p.z]", "f($x = o1, [_, typeof _])", "($p = o1) ? _ : $p.q.r", "$x = $p = o1, [_, $x.k, $p.q.r]", "$a$ = _, $a$.k")
 	var idx int64
 	for _, sh := range shapes {
